@@ -534,7 +534,7 @@ class FileSystemCSVRegistry(rbql_engine.RBQLTableRegistry):
 
     def get_warnings(self):
         result = []
-        if self.record_iterator is not None and self.has_header:
+        if self.record_iterator is not None and self.record_iterator.has_header: # The iterator knows better: the flag could have been overridden by the `WITH (header)` / `WITH (noheader)` query modifier
             result.append('The first record in JOIN file {} was also treated as header (and skipped)'.format(os.path.basename(self.table_path))) # UT JSON CSV
         return result
 
